@@ -15,7 +15,7 @@ from . import tracecheck
 
 KINDS = ["missing_file", "corrupt_json", "corrupt_xlsx", "overload", "zero_impedance", "island_no_slack",
          "dangling_reference", "no_pflow_element", "tds_after_failed_pflow", "eig_after_failed_pflow",
-         "garbage_raw", "multi_one_overloaded", "multi_one_corrupt"]
+         "garbage_raw", "multi_one_overloaded", "multi_one_corrupt", "multi_bad_in_first_batch", "dyn_data_nan_init", "dyn_data_zero_rating_init"]
 # "all branches out of service" is not an infeasible input under the library's semantics: every bus but the slack bus is
 # reported as islanded and excluded, the power flow of what remains passes its residual test (it used to be "reported" only
 # because System.connectivity() raised IndexError, repaired by 8c24139)
@@ -37,12 +37,23 @@ def run_one(sc):
     nan = False
     kw = sys_kwargs()
     try:
-        if kind in ("multi_one_overloaded", "multi_one_corrupt"):
+        if kind in ("multi_one_overloaded", "multi_one_corrupt", "multi_bad_in_first_batch"):
             # several cases in one invocation (what `andes run a.json b.json` does): one good case and one that fails
             import json as _json
             src = _json.load(open(case_path("5bus/pjm5bus.json")))
             _json.dump(src, open(os.path.join(d, "a_good.json"), "w"))
-            if kind == "multi_one_overloaded":
+            files = ["a_good.json", "b_bad.json"]
+            if kind == "multi_bad_in_first_batch":
+                # more cases than processes: the failing case runs in the first batch, the last batch is clean
+                os.remove(os.path.join(d, "a_good.json"))
+                bad = _json.loads(_json.dumps(src))
+                for dev in bad["PQ"]:
+                    dev["p0"] *= 80.0
+                _json.dump(bad, open(os.path.join(d, "a_bad.json"), "w"))
+                for nm in ("b_good.json", "c_good.json"):
+                    _json.dump(src, open(os.path.join(d, nm), "w"))
+                files = ["a_bad.json", "b_good.json", "c_good.json"]
+            elif kind == "multi_one_overloaded":
                 bad = _json.loads(_json.dumps(src))
                 for dev in bad["PQ"]:
                     dev["p0"] *= 80.0
@@ -51,7 +62,7 @@ def run_one(sc):
                 open(os.path.join(d, "b_bad.json"), "w").write(_json.dumps(src)[:2000])
             kw2 = {k: v for k, v in kw.items() if k != "autogen_stale"}
             try:
-                ec = andes.run(["a_good.json", "b_bad.json"], input_path=d, cli=True, routine="pflow", verbose=50, ncpu=2, **kw2)
+                ec = andes.run(files, input_path=d, cli=True, routine="pflow", verbose=50, ncpu=2, **kw2)
                 exit_code = int(ec)
                 ret = (exit_code == 0)
             except SystemExit as ex:
@@ -100,6 +111,10 @@ def run_one(sc):
             elif kind == "singular_all_lines_out":
                 for i in range(ss.Line.n):
                     ss.Line.u.v[i] = 0
+            elif kind == "dyn_data_nan_init":
+                ss.GENROU.S10.v[0] = -0.5          # saturation data that make the initial values NaN
+            elif kind == "dyn_data_zero_rating_init":
+                ss.GENROU.Sn.v[1] = 0.0            # a machine rated 0 MVA: division by zero in the per-unit conversion
             elif kind == "dangling_reference":
                 ss.add("GENCLS", dict(bus=1, gen="no_such_generator", M=6.0, D=1.0, xd1=0.3))
             elif kind == "no_pflow_element":
@@ -110,6 +125,13 @@ def run_one(sc):
                 pf = ss.PFlow.run() if True else None
                 ret = bool(ok) and bool(pf)
                 exit_code = ss.exit_code
+            elif kind in ("dyn_data_nan_init", "dyn_data_zero_rating_init"):
+                # the verdict of the initialisation alone (TDS.init called directly, as `andes run --init` does)
+                ss.PFlow.run()
+                ss.TDS.init()
+                ret = bool(ss.TDS.test_ok is True)
+                exit_code = ss.exit_code
+                nan = bool(ret) and bool(np.isnan(ss.dae.x).any() or np.isnan(ss.dae.y).any())
             elif kind in ("tds_after_failed_pflow", "eig_after_failed_pflow"):
                 for i in range(ss.PQ.n):
                     ss.PQ.p0.v[i] *= 80.0
